@@ -378,6 +378,8 @@ def grammar(toks):
                 prev, prev_tok = 'grp', 'pct'
                 feats.add('percent')
             elif k in ('op', 'colon'):
+                if k == 'colon' and prev_tok in ('pct', 'str', 'bool', 'array'):
+                    raise Unknown('range-of-a-value')     # "x%:y": certainly odd, but which class?  no claim
                 state = 'E'
                 pending = before = _opclass(k, t)
                 feats.add('binary' if k == 'op' else 'range-op')
